@@ -105,8 +105,8 @@ Definition apply_memberof (fuel : nat) (s : state) (aff : list N) : option state
 Record newent := mknew { nid : N; ngrp : bool; ndyng : bool; nmemb : list N }.
 
 Inductive op :=
-| OCreate (l : list newent) (dynch : list (N * list N))
-| OMod (cand : list N) (memch : list (N * list N)) (dynch : list (N * list N))
+| OCreate (strict : bool) (l : list newent) (dynch : list (N * list N))
+| OMod (strict : bool) (cand : list N) (memch : list (N * list N)) (dynch : list (N * list N))
 | ODelete (ids : list N)
 | ORevive (id : N) (dynch : list (N * list N)).
 
@@ -155,7 +155,11 @@ Definition is_group (s : state) (u : N) : bool :=
 Definition refs (e : ent) : list N :=
   emem e ++ edmo e ++ erdmo e ++ (if edyng e then [] else edyn e).
 Definition exists_ent (s : state) (u : N) : bool := existsb (fun e => eid e =? u) s.
-Definition refint_ok (s : state) (newrefs : list N) : bool :=
+(* strict = true: the variant in which every inclusion term is itself restricted to live entries
+   (every new reference must be live). Which variant the tree under test has is determined by the harness
+   with a dedicated probe operation at start-up and recorded in every op. *)
+Definition refint_ok (strict : bool) (s : state) (newrefs : list N) : bool :=
+  if strict then forallb (is_live s) newrefs else
   match newrefs with
   | [] => true
   | _ => forallb (exists_ent s) newrefs && existsb (is_live s) newrefs
@@ -163,11 +167,11 @@ Definition refint_ok (s : state) (newrefs : list N) : bool :=
 
 (* modify / batch_modify of live entries. Refused (state unchanged) when a target is not live, a
    Member change names a non-group or a non-candidate, or refint refuses the new references. *)
-Definition do_mod (fuel : nat) (s : state) (cand : list N) (memch dynch : list (N * list N)) : option state :=
+Definition do_mod (strict : bool) (fuel : nat) (s : state) (cand : list N) (memch dynch : list (N * list N)) : option state :=
   let pre := filter (fun e => nmem (eid e) cand) s in
   if all_live s cand
      && forallb (fun kv => nmem (fst kv) cand && is_group s (fst kv)) memch
-     && refint_ok s (nminus (flat_map refs (map (upd_mem memch) pre)) (flat_map refs pre))
+     && refint_ok strict s (nminus (flat_map refs (map (upd_mem memch) pre)) (flat_map refs pre))
   then mod_inner fuel s cand memch dynch
   else Some s.
 
@@ -182,11 +186,11 @@ Fixpoint nodupb (l : list N) : bool :=
   match l with [] => true | x :: r => negb (nmem x r) && nodupb r end.
 
 (* create: post_create_inner. affected = created uuids + dyngroup changes + Member of created groups *)
-Definition do_create (fuel : nat) (s : state) (l : list newent) (dynch : list (N * list N)) : option state :=
+Definition do_create (strict : bool) (fuel : nat) (s : state) (l : list newent) (dynch : list (N * list N)) : option state :=
   let s1 := fold_right (fun n acc => insert_ent (new_ent n) acc) s l in
   if nodupb (map nid l)
      && forallb (fun n => negb (existsb (fun e => eid e =? nid n) s)) l
-     && refint_ok s1 (flat_map (fun n => if ngrp n then nmemb n else []) l)
+     && refint_ok strict s1 (flat_map (fun n => if ngrp n then nmemb n else []) l)
   then
     apply_memberof fuel (map (upd_dyn dynch) s1)
       (map nid l ++ flat_map (fun e => symdiff (edyn e) (edyn (upd_dyn dynch e))) s1
@@ -249,12 +253,12 @@ Definition do_revive (fuel : nat) (s : state) (id : N) (dynch : list (N * list N
 (* one operation; None = apply_memberof does not come to an end (within fuel_of of the state) *)
 Definition step_fuel (fuel : nat) (s : state) (o : op) : option state :=
   match o with
-  | OCreate l dynch => do_create fuel s l dynch
-  | OMod cand memch dynch => do_mod fuel s cand memch dynch
+  | OCreate strict l dynch => do_create strict fuel s l dynch
+  | OMod strict cand memch dynch => do_mod strict fuel s cand memch dynch
   | ODelete ids => do_delete fuel s ids
   | ORevive id dynch => do_revive fuel s id dynch
   end.
-Definition op_size (o : op) : nat := match o with OCreate l _ => length l | _ => O end.
+Definition op_size (o : op) : nat := match o with OCreate _ l _ => length l | _ => O end.
 Definition step (s : state) (o : op) : option state :=
   let n := S (length s + op_size o) in step_fuel (2 * n * n + 8) s o.
 
